@@ -12,18 +12,74 @@ from vlib.gen import graphs as H
 PID = "C10"
 TITLE = "Spanning trees and forests span, are acyclic, and respect exclusions"
 LEAN_MODULES = ["Mouette.Props.C10", "Mouette.Props.C10Kruskal", "Mouette.Props.C10KruskalMin", "Mouette.Props.C10Orient",
-                "Mouette.Props.C10Bridge"]
+                "Mouette.Props.C10Bridge", "Mouette.Props.C10Source"]
 REQUIRED_THEOREMS = ["bfs_terminates", "parent_children_consistent", "tree_edges_are_adjacencies", "edge_count",
                      "reached_eq_component", "bfs_min_hops", "traverse_once_parent_first", "forest_one_tree_per_component",
                      "kruskal_spanning_forest", "kruskal_sort_sorted", "kruskal_minimum", "orient_spec", "kruskal_forest",
                      "mst_orientation", "bridge_bstep_edge", "bridge_bstep_face", "bridge_bstep_cell", "bridge_avoid_edge",
                      "recompute_eq_fresh_edge", "recompute_eq_fresh_mst", "recompute_eq_fresh_face", "recompute_eq_fresh_cell",
-                     "forest_recompute_eq_fresh", "source_bstep_preserves_invariant"]
+                     "forest_recompute_eq_fresh", "source_bstep_preserves_invariant",
+                     # round 4: trees/*.py translated imperatively (Generated/C10Tree.lean) + new theorems
+                     "bridge_put_edge", "bridge_put_face", "bridge_put_cell", "bridge_binit_edge", "bridge_binit_face",
+                     "bridge_binit_cell", "bridge_finish_edge", "bridge_finish_face", "bridge_finish_cell", "bridge_compute_edge",
+                     "bridge_compute_face", "bridge_compute_cell", "bridge_traverse", "bridge_kruskalLoop", "bridge_sortEdges",
+                     "bridge_kruskal_neighbours", "bridge_admissible", "mst_weight_table", "bridge_orientInit", "bridge_orient",
+                     "bridge_mst", "bridge_forestStep_edge", "bridge_forestStep_face", "bridge_forestStep_cell", "bridge_forest_edge",
+                     "bridge_forest_face", "bridge_forest_cell", "bridge_forest_accessors", "bridge_call", "source_edge_tree_spec",
+                     "forest_traverse_once", "source_face_tree_spec", "source_cell_tree_spec", "source_forest_spec", "source_mst_spec"]
+
+_T, _B = "mouette/processing/trees/", "mouette/utils/unionfind.py::UnionFind."
+_VIS = "out-of-scope: debug / visualisation export, not part of the statement"
+_UFM = "modelled"          # Model/UnionFind.lean (the statement-level translation + refinement of unionfind.py is property C20)
+_UFO = "out-of-scope: not used by the trees (property C20)"
+SOURCE_MAP = {
+    _T + "base.py::SpanningTree.__init__": "modelled",
+    _T + "base.py::SpanningTree.__call__": "translated",
+    _T + "base.py::SpanningTree.compute": "oracle-only",
+    _T + "base.py::SpanningTree.traverse": "translated",
+    _T + "base.py::SpanningTree.traverse.pop": "translated",
+    _T + "base.py::SpanningTree.build_tree_as_polyline": _VIS,
+    _T + "base.py::SpanningForest.__init__": "modelled",
+    _T + "base.py::SpanningForest.__call__": "translated",
+    _T + "base.py::SpanningForest.n_trees": "translated",
+    _T + "base.py::SpanningForest.__getitem__": "translated",
+    _T + "base.py::SpanningForest.edges": "translated",
+    _T + "base.py::SpanningForest.compute": "out-of-scope: abstract (pass)",
+    _T + "base.py::SpanningForest.traverse": "translated",
+    _T + "base.py::SpanningForest.build_tree_as_polyline": _VIS,
+    _T + "edge_sp.py::EdgeSpanningTree.__init__": "modelled",
+    _T + "edge_sp.py::EdgeSpanningTree._avoid_edge": "translated",
+    _T + "edge_sp.py::EdgeSpanningTree.compute": "translated",
+    _T + "edge_sp.py::EdgeSpanningTree.compute.put_neighbours_in_queue": "translated",
+    _T + "edge_sp.py::EdgeSpanningTree.build_tree_as_polyline": _VIS,
+    _T + "edge_sp.py::EdgeMinimalSpanningTree.__init__": "oracle-only",
+    _T + "edge_sp.py::EdgeMinimalSpanningTree.compute": "translated",
+    _T + "edge_sp.py::EdgeSpanningForest.__init__": "modelled",
+    _T + "edge_sp.py::EdgeSpanningForest.compute": "translated",
+    _T + "face_sp.py::FaceSpanningTree.__init__": "modelled",
+    _T + "face_sp.py::FaceSpanningTree.compute": "translated",
+    _T + "face_sp.py::FaceSpanningTree.compute.put_neighbours_in_queue": "translated",
+    _T + "face_sp.py::FaceSpanningTree.build_tree_as_polyline": _VIS,
+    _T + "face_sp.py::FaceSpanningForest.__init__": "modelled",
+    _T + "face_sp.py::FaceSpanningForest.compute": "translated",
+    _T + "cell_sp.py::CellSpanningTree.__init__": "modelled",
+    _T + "cell_sp.py::CellSpanningTree.compute": "translated",
+    _T + "cell_sp.py::CellSpanningTree.compute.put_neighbours_in_queue": "translated",
+    _T + "cell_sp.py::CellSpanningTree.build_tree_as_polyline": _VIS,
+    _T + "cell_sp.py::CellSpanningForest.__init__": "modelled",
+    _T + "cell_sp.py::CellSpanningForest.compute": "translated",
+    _B + "__init__": _UFM, _B + "add": _UFM, _B + "find": _UFM, _B + "connected": _UFM, _B + "union": _UFM, _B + "__contains__": _UFM,
+    _B + "__repr__": _UFO, _B + "__len__": _UFO, _B + "__getitem__": _UFO, _B + "__setitem__": _UFO, _B + "component": _UFO,
+    _B + "roots": _UFO, _B + "components": _UFO, _B + "component_mapping": _UFO,
+}
 TRUSTED = [
     "Lean 4.33.0 kernel; axioms ⊆ {propext, Classical.choice, Quot.sound}",
-    "hand-written model Mouette/Model/Trees.lean (BFS with (parent,child) queue and seen flags, children/edges loop, traverse, "
-    "Kruskal on the C20 union-find model + orientation, forests) tied to mouette/processing/trees/*.py by exact comparison of parent "
-    "tables, children lists, edge lists and both traversal sequences on the cases of this run",
+    "model Mouette/Model/Trees.lean: put_neighbours_in_queue (3 shapes), initialisation, BFS loop body, final children/edges loop, "
+    "traverse (+pop), Kruskal loop, neighbour sets, orientation, forest loops and accessors are re-translated from the working tree on "
+    "every run (Generated/C10Loop.lean, C10Tree.lean) and proved equal to the model (Props/C10Bridge, C10Source); hand-modelled and tied "
+    "by the exact comparison of tables / edge lists / traversal sequences on the cases of this run only: constructors (defaults, random "
+    "root), Python set iteration order of the MST neighbour sets (children compared sorted), UnionFind (model of property C20), "
+    "the connectivity queries themselves (C01/C03)",
     "the adjacency handed to the model is read from the implementation's connectivity in the code's iteration order "
     "(connectivity itself is C01/C03); the oracle re-derives adjacency, border and components from the raw faces/cells",
     "random.randint patched for default roots",
@@ -36,7 +92,11 @@ RULE = ("random polylines / manifold surfaces / tet meshes (incl. disconnected),
         "default (patched random) roots, random exclusion sets (edge pairs / face triples, 0-40% of the connectors) handed over as set / "
         "frozenset / list / tuple / ndarray, avoid_boundary on/off, MST weights one/length/dict/attr with float / int / numpy-int / "
         "fractional / negative values and ties, forests; histories: compute() or obj() called again on the computed tree/forest (20%), "
-        "other trees built on the same mesh object before (15%), every tree traversed twice; non-trivial = distinct case whose tree "
+        "other trees built on the same mesh object before (15%), every tree traversed twice; for the MST with weights='length' in 35% of "
+        "the cases 40% of the cases an edge attribute named 'length' is on the mesh before the tree is built (stored by an earlier edge_length() query "
+        "and stale after 1-3 vertex moves, or holding arbitrary values) — minimality is judged on the geometric lengths at the time of "
+        "compute; 8% of all cases carry arbitrary attributes under the library's conventional names (length, barycenter, area, normals, "
+        "volume); non-trivial = distinct case whose tree "
         "reaches at least 2 elements")
 
 _CACHE = {}
@@ -84,6 +144,15 @@ def cases(rng, tier):
         elif t == "mst":
             case["avoid_boundary"] = rng.random() < 0.3
             case["w"] = rng.choice(["one", "length", "length", "dict", "attr"])
+            if case["w"] == "length" and rng.random() < 0.4:
+                # history on the MESH: an edge attribute with the library's conventional name 'length' is on the mesh before the tree
+                # is built — stored by an earlier edge_length() query ("query", then stale once vertices are moved) or holding arbitrary
+                # values ("arbitrary": written by the user, loaded from a file); the tree must be minimal for the geometric lengths
+                nvv = len(mesh["V"])
+                store = rng.choice(["query", "query", "arbitrary", "arbitrary", "none"])
+                nmv = rng.choice([1, 2, 3]) if store != "arbitrary" else rng.choice([0, 0, 1])
+                case["geo"] = {"store": store,
+                               "moves": [[rng.randrange(nvv), [rng.randrange(-80, 81) / 8 for _ in range(3)]] for _ in range(nmv)]}
         if t.endswith("forest"): case["root"] = None
         case["read"] = rng.choice(["trees-first", "forest-first"])     # order in which the accessors are read (each twice)
         # input representation
@@ -95,6 +164,8 @@ def cases(rng, tier):
         # histories on one object: compute() again / tree() again; other trees built on the same mesh before
         if rng.random() < 0.2: case["hist"] = [rng.choice(["compute", "call"]) for _ in range(rng.choice([1, 1, 2]))]
         if rng.random() < 0.15: case["pre"] = rng.randint(1, 3)
+        # the mesh already carries attributes under the library's conventional names, with arbitrary values
+        if rng.random() < 0.08: case["conv"] = rng.randrange(1000)
         yield case
         if tier != "quick" and i < 400 and nel <= 12 and not t.endswith("forest"):
             for r in range(nel):            # small scope: every root
@@ -104,6 +175,13 @@ def cases(rng, tier):
 # ------------------------------------------------------------------------------------------------
 # running the real implementation
 # ------------------------------------------------------------------------------------------------
+def _eff_V(case):
+    """vertex coordinates at the time the tree is computed (after the moves of the `geo` history)"""
+    V = [list(v) for v in case["mesh"]["V"]]
+    for i, pos in (case.get("geo") or {}).get("moves", []): V[i] = [float(c) for c in pos]
+    return V
+
+
 def _nel(case):
     m, t = case["mesh"], case["t"]
     return len(m["V"]) if t in ("edge", "mst", "eforest") else len(m["F"]) if t in ("face", "fforest") else len(m["C"])
@@ -141,6 +219,26 @@ def _mst_weight(a, b, case):
     if k == "frac": return Fraction(H.hash_weight(a, b, case["wseed"], 9), 4)
     if k == "neg": return Fraction(H.hash_weight(a, b, case["wseed"], 4) - 2)
     return Fraction(H.hash_weight(a, b, case["wseed"], 4))
+
+
+def _arbitrary_attr(container, name, dim, seed):
+    """attribute `name` with arbitrary (hash-derived, positive and negative) float values on every element of the container"""
+    if len(container) == 0 or container.has_attribute(name): return
+    a = container.create_attribute(name, float, dim, dense=(seed % 2 == 0)) if dim > 1 else container.create_attribute(name, float, dense=(seed % 2 == 0))
+    for i in range(len(container)):
+        h = (i * 2654435761 + seed * 40503) % 1009
+        a[i] = [((h * (k + 3)) % 97) / 8 - 5 for k in range(dim)] if dim > 1 else (h % 97) / 8 - 2
+
+
+def _conventional_attrs(m, case):
+    """the mesh already carries attributes under the names the library itself uses (edge 'length', face / cell 'barycenter',
+    'area', 'normals', 'volume'), holding arbitrary values; no clause of the property depends on them"""
+    seed = case["conv"]
+    if not (case.get("geo") and case["geo"]["store"] == "query"): _arbitrary_attr(m.edges, "length", 1, seed)
+    if hasattr(m, "faces"):
+        _arbitrary_attr(m.faces, "barycenter", 3, seed + 1); _arbitrary_attr(m.faces, "area", 1, seed + 2); _arbitrary_attr(m.faces, "normals", 3, seed + 3)
+    if hasattr(m, "cells"):
+        _arbitrary_attr(m.cells, "barycenter", 3, seed + 4); _arbitrary_attr(m.cells, "volume", 1, seed + 5)
 
 
 def _history(case, obj):
@@ -181,6 +279,7 @@ def _run(case):
     try:
         import numpy as np
         _pre_trees(case, m, T)
+        if case.get("conv") is not None: _conventional_attrs(m, case)
         root = case["root"] if case["root"] is not None else case["rand"] % n
         out["root"] = root
         root_arg = np.int64(case["root"]) if (case.get("rrep") == "npint" and case["root"] is not None) else case["root"]
@@ -197,6 +296,10 @@ def _run(case):
                 tree = T.EdgeSpanningTree(m, root_arg, avoid_boundary=case["avoid_boundary"],
                                           avoid_edges=_excl_arg(case, excl_ids))()
             elif t == "mst":
+                if case.get("geo"):
+                    if case["geo"]["store"] == "query": M.attributes.edge_length(m)          # default: persistent, attribute 'length'
+                    elif case["geo"]["store"] == "arbitrary": _arbitrary_attr(m.edges, "length", 1, case["wseed"])
+                    for i, pos in case["geo"]["moves"]: m.vertices[i] = M.Vec(*[float(c) for c in pos])
                 edges = [(int(a), int(b)) for a, b in m.edges]
                 if case["w"] == "one": weights = "one"; wl = [Fraction(1)] * len(edges)
                 elif case["w"] == "length":
@@ -518,7 +621,7 @@ def _oracle(case):
         return out
     # minimal spanning tree: the edge list is a minimum-weight spanning forest of the admissible edges ...
     import math
-    V = case["mesh"]["V"]
+    V = _eff_V(case)
     if case["w"] == "one": wf = lambda a, b: Fraction(1)
     elif case["w"] == "length": wf = lambda a, b: Fraction(math.sqrt(float(H.sq_len(V, a, b))))
     else: wf = lambda a, b: _mst_weight(a, b, case)
@@ -575,6 +678,8 @@ def classify(case, obs):
     if case["t"].endswith("forest"): ks.append("read-twice:" + case.get("read", "trees-first"))
     if "+union" in str(case["mesh"].get("tag")): ks.append("mesh:disjoint-union")
     if case.get("pre"): ks.append("history:other-trees-before")
+    if case.get("geo"): ks.append("history:edge-attr-length=" + case["geo"]["store"] + (",vertices-moved" if case["geo"]["moves"] else ""))
+    if case.get("conv") is not None: ks.append("history:conventional-attribute-names-present")
     if o["r"] == "ok" and not case["t"].endswith("forest"):
         reached = 1 + sum(1 for p in o["P"].split(",") if p != "N")
         ks.append("reach:" + ("all" if reached == o["n"] else "partial" if reached > 1 else "root-only"))
@@ -592,13 +697,20 @@ def describe(case):
 
 def shrink(case, still):
     c = dict(case)
-    for k in ("pre", "rrep", "xrep"):
+    for k in ("pre", "rrep", "xrep", "conv"):
         if k in c:
             trial = {kk: v for kk, v in c.items() if kk != k}
             if still(trial): c = trial
     if c.get("hist") and len(c["hist"]) > 1:
         trial = dict(c, hist=c["hist"][:1])
         if still(trial): c = trial
+    if c.get("geo"):
+        trial = {kk: v for kk, v in c.items() if kk != "geo"}
+        if still(trial): c = trial
+        else:
+            for mv in c["geo"]["moves"]:
+                trial = dict(c, geo=dict(c["geo"], moves=[mv]))
+                if still(trial): c = trial; break
     ex = list(c["excl"])
     i = 0
     while i < len(ex):
@@ -616,8 +728,8 @@ def search_on_break(rng, broken, mismatches):
 
 
 def translate():
-    from . import c10_translate
-    return c10_translate.translate()
+    from . import c10_translate, c10_tree
+    return c10_translate.translate() + c10_tree.translate()
 
 
 MANIFEST = {
@@ -631,7 +743,11 @@ MANIFEST = {
                    "every element once; the Kruskal loop on the C20 union-find model selects a spanning forest of the admissible edges (no cycle, "
                    "same connectivity) of minimum total weight among ALL spanning forests of the admissible edges, and the orientation loop (no seen "
                    "flags) terminates on it and orients exactly the root's component. Kruskal and its orientation are also compared exactly "
-                   "with the code and checked by the oracle (independent exact Kruskal, components)."),
+                   "with the code and checked by the oracle (independent exact Kruskal, components)."
+                   " Round 4: put_neighbours_in_queue (3 shapes), the initialisation, the final children/edges loop, traverse, the Kruskal loop with "
+                   "its neighbour sets, the orientation BFS, the forest loops and accessors are re-extracted from the working tree on every run and "
+                   "proved equal to the model; the theorems are restated on the source-level compositions compute_edge/face/cell, mst_src, "
+                   "forest_*_src; new: the forest traversal visits every element exactly once and the forest has n - n_trees edges."),
     "level_note": ("Trusted: Lean kernel + propext/Classical.choice/Quot.sound; the hand-written model (tied to the code by exact comparison "
                    "of parent/children/edge tables and traversal sequences on the cases of each run); adjacency read from the implementation's "
                    "connectivity; random.randint patched. the Kruskal theorems depend on lean-c20's Lemmas/UnionFind.lean (refinement of the union-find model)."),
